@@ -217,3 +217,25 @@ def has_repeated_interior(d):
 
 def varied_weights(d):
     return bool(d["rational"]) and len(set(d["W"])) > 1
+
+
+def container(cls, objs, form=0):
+    """A container of the given shapes, filled in one of the documented ways ("The input can be a single geometry, a list of
+    geometry objects or a geometry container object"; "Addition operator, e.g. mcrv1 + mcrv2, also works")."""
+    objs = list(objs)
+    form = form % 6
+    if form == 0:
+        return cls(*objs)
+    c = cls()
+    if form == 1:
+        for o in objs:
+            c.add(o)
+    elif form == 2:
+        c.add(objs)
+    elif form == 3:
+        c.add(cls(*objs))
+    elif form == 4:
+        c = c + cls(*objs)
+    else:
+        c = cls(cls(*objs[:1]), tuple(objs[1:]))
+    return c
